@@ -2,6 +2,11 @@
 """Generates the next seed prompt for each property given on the command line, telling the author which mechanisms were already tried (from seeded/*/README.md first lines)."""
 import sys, os, glob, json, re, subprocess
 R='/verif'
+THEMES=['a reset / cleanup / restore step that is skipped on one rarely taken path (early return, failure path, second use of the same object, second repetition)',
+ 'a boundary: the exact size, length, count or index at which a fast path, a fixed buffer, a table row or a wrap-around changes behaviour (wrong only at or just past the limit)',
+ 'a family of near-identical functions or branches (one per type, per width, per option spelling, per output kind): one member wired to its neighbour or missing one step the others have',
+ 'an interaction of two features that are each fine alone (option A together with option B; one facility used from inside another facility\'s callback or failure path)',
+ 'order dependence: right when operations come in the usual order, wrong in a legal unusual order (reverse registration, removing a middle element, re-entry, interleaving two objects, calling a query between two steps)']
 for pid in sys.argv[1:]:
     tried=[]
     ks=[]
@@ -10,9 +15,17 @@ for pid in sys.argv[1:]:
         patch=open(d+'/patch.diff').read()
         files=sorted(set(re.findall(r'^\+\+\+ b/(\S+)',patch,re.M)))
         funcs=sorted(set(re.findall(r'^@@.*@@ (.*)$',patch,re.M)))
-        tried.append('%s (%s)'%(', '.join(files), '; '.join(f.strip()[:70] for f in funcs[:2])))
+        # the hunk header names the function *preceding* the change when the change is at a function's start, so
+        # the first removed and added lines are quoted too: enough for an author to recognise the mechanism
+        minus=[l[1:].strip() for l in patch.splitlines() if l.startswith('-') and not l.startswith('---') and len(l.strip())>3]
+        plus=[l[1:].strip() for l in patch.splitlines() if l.startswith('+') and not l.startswith('+++') and len(l.strip())>3]
+        quote=''
+        if minus: quote+=' removed `%s`'%minus[0][:90]
+        if plus: quote+=' added `%s`'%plus[0][:90]
+        tried.append('%s (near %s;%s)'%(', '.join(files), '; '.join(f.strip()[:70] for f in funcs[:2]), quote))
     k=max(ks+[0])+1
     hint='Changes already tried for this property (do NOT repeat these mechanisms or functions; pick a different function or a different aspect of the property): '+' | '.join(tried)+'.'
+    hint+=' Suggested theme for this attempt (follow it if the code offers an opportunity, otherwise choose freely): '+THEMES[(int(pid[1:])+k)%5]+'.'
     out=subprocess.run(['python3',R+'/tools/seed_prompt.py',pid,str(k),hint],capture_output=True,text=True).stdout
     open('/tmp/seedprompts/%s-%d.txt'%(pid,k),'w').write(out)
     print(pid,k)
